@@ -229,6 +229,15 @@ M("c16-dereg-subs-outside-lock-revert", "C16", "flexstack/facilities/local_dynam
   "        for subscription in stale:\n            self.remove_subscription(subscription)\n        return registered",
   "revert: deregistration removes the consumer's subscriptions outside the lock, one by one")
 
+M("c02-rsu-code-revert", "C02", "flexstack/geonet/gn_address.py", "    ROAD_SIDE_UNIT = 15", "    ROAD_SIDE_UNIT = 12",
+  "revert: road side unit numbered 12 in the GN address")
+M("c02-unnamed-st-as-unknown", "C02", "flexstack/geonet/gn_address.py", "        st = ST((data[0] & 0x7C) >> 2)",
+  "        try:\n            st = ST((data[0] & 0x7C) >> 2)\n        except ValueError:\n            st = ST.UNKNOWN",
+  "unnamed station-type codes decoded as UNKNOWN: forwarded frames go out with the source address rewritten")
+M("c19-gate-open-when-time-earlier", "C19", "flexstack/management/dcc_adaptive.py", "        if self._t_go is None:\n            return True\n        return t >= self._t_go - self._T_EPSILON",
+  "        if self._t_go is None:\n            return True\n        if self._t_pg is not None and t < self._t_pg:\n            return True\n        return t >= self._t_go - self._T_EPSILON",
+  "gate open for a caller whose time stamp is earlier than the last admission")
+
 # ---------------------------------------------------------------- C09
 M("c09-no-sig", "C09", "flexstack/security/certificate.py",
   "                if self.verify_signature(\n                    backend,\n                    self.certificate[\"toBeSigned\"],\n                    self.certificate[\"signature\"],\n                    self.issuer.certificate[\"toBeSigned\"][\"verifyKeyIndicator\"][1],\n                ):\n                    return True",
